@@ -480,7 +480,9 @@ pub fn pt(sp: &mut Sp, n: u64) {
         sp.w(G::W, "zero");
         return;
     }
-    let br = sp.v.regional == 1;
+    // alias 2: the short-scale word respelled "bilião / biliões" (the library lists it next to "bilhão / bilhões")
+    let br = sp.v.regional == 1 || sp.v.alias == 2;
+    let (bi_sg, bi_pl) = if sp.v.alias == 2 { ("bilião", "biliões") } else { ("bilhão", "bilhões") };
     // parts: (kind, value) ; kind 0 = bilhões, 1 = milhões, 2 = rest
     let (bi, mi, r): (u32, u32, u32) = if br {
         ((n / 1_000_000_000) as u32, ((n / 1_000_000) % 1000) as u32, (n % 1_000_000) as u32)
@@ -493,10 +495,10 @@ pub fn pt(sp: &mut Sp, n: u64) {
         k += 1;
         if bi == 1 {
             sp.w(G::W, "um");
-            sp.w(G::W, "bilhão");
+            sp.w(G::W, bi_sg);
         } else {
             pt_lt1000(sp, bi);
-            sp.w(G::W, "bilhões");
+            sp.w(G::W, bi_pl);
         }
     }
     if mi > 0 {
@@ -826,6 +828,7 @@ pub fn axes(l: L) -> Vec<(&'static str, Var)> {
         L::Pt => {
             v.push(("brazilian", Var { regional: 1, ..s }));
             v.push(("feminine", Var { alias: 1, ..s }));
+            v.push(("bilião for bilhão", Var { alias: 2, ..s }));
         }
         L::It => {
             v.push(("split words", Var { split: true, ..s }));
@@ -854,7 +857,7 @@ pub fn all_combos(l: L) -> Vec<Var> {
         L::En => (vec![0, 1], vec![false], vec![false, true], vec![false, true], vec![0], vec![0, 1]),
         L::Fr => (vec![0, 1, 2], vec![false], vec![false], vec![false, true], vec![0, 1, 2, 3], vec![0, 1]),
         L::Es => (vec![0], vec![false], vec![false], vec![false], vec![0], vec![0, 1, 2, 3]),
-        L::Pt => (vec![0], vec![false], vec![false], vec![false], vec![0, 1], vec![0, 1]),
+        L::Pt => (vec![0], vec![false], vec![false], vec![false], vec![0, 1], vec![0, 1, 2]),
         L::It => (vec![0], vec![false, true], vec![false, true], vec![false], vec![0], vec![0, 1, 2]),
         L::De => (vec![0], vec![false, true], vec![false], vec![false], vec![0], vec![0, 1, 2, 3]),
         L::Nl => (vec![0], vec![false, true], vec![false], vec![false], vec![0], vec![0, 1]),
